@@ -32,7 +32,7 @@ package roothash
 
 //@ func rearmRoundTimeout
 //@   props C10
-//@   modifies kvState(), abciAPI.GTreeW
+//@   modifies kvState()
 //@   trustframe
 //@   ensures err == nil || fresh(err)
 //@   note writes only the round-timeout keys of the consensus state (frame assumed: the state accessors are outside the contracts)
